@@ -79,10 +79,18 @@ Pop(a) ==
   /\ Goto(a, "sb.unpark")
   /\ UNCHANGED <<cnt, ip, retTo, cancelled, parked, res>> /\ UNCH_B /\ UNCH_G
 
+\* blocker.unpark(): a target that is really suspended on this blocker is taken out of its slot and
+\* resumed at once (it will return Ok); otherwise the token is left for its next park
 WakeUnpark(a) ==
   /\ pc[a] = "sb.unpark"
-  /\ token' = [token EXCEPT ![w[a]] = TRUE] /\ Goto(a, "sb.set_unparked")
-  /\ UNCHANGED <<unparked, release>> /\ UNCH_M /\ UNCH_L /\ UNCH_G
+  /\ LET b == w[a]  t == b[1] IN
+       IF pc[t] = "parked" /\ parked[t] /\ Me(t) = b
+         THEN /\ parked' = [parked EXCEPT ![t] = FALSE] /\ res' = [res EXCEPT ![t] = "Ok"]
+              /\ pc' = [pc EXCEPT ![a] = "sb.set_unparked", ![t] = "sb.park.ret"]
+              /\ UNCHANGED token
+         ELSE /\ token' = [token EXCEPT ![b] = TRUE] /\ Goto(a, "sb.set_unparked")
+              /\ UNCHANGED <<parked, res>>
+  /\ UNCHANGED <<unparked, release, ip, w, retTo, cancelled>> /\ UNCH_M /\ UNCH_G
 
 WakeSetUnparked(a) ==
   /\ pc[a] = "sb.set_unparked"
@@ -119,12 +127,6 @@ ParkEnter(a) ==
          ELSE /\ parked' = [parked EXCEPT ![a] = TRUE] /\ Goto(a, "parked") /\ UNCHANGED <<token, res>>
   /\ UNCHANGED <<unparked, release, ip, w, retTo, cancelled>> /\ UNCH_M /\ UNCH_G
 
-\* the runtime resumes a parked actor whose token arrived (no verification point: internal)
-WakeByToken(a) ==
-  /\ pc[a] = "parked" /\ parked[a] /\ token[Me(a)]
-  /\ token' = [token EXCEPT ![Me(a)] = FALSE] /\ parked' = [parked EXCEPT ![a] = FALSE]
-  /\ res' = [res EXCEPT ![a] = "Ok"] /\ Goto(a, "sb.park.ret")
-  /\ UNCHANGED <<unparked, release, ip, w, retTo, cancelled>> /\ UNCH_M /\ UNCH_G
 
 ParkReturn(a) ==
   /\ pc[a] = "sb.park.ret"
@@ -184,7 +186,7 @@ Step(a) ==
   \/ TakeRelease(a) \/ UnlockDec(a) \/ ParkEnter(a) \/ ParkReturn(a) \/ IsUnparked(a)
   \/ SetRelease(a) \/ LeaveCS(a)
 \* internal steps (no point)
-Internal(a) == WakeByToken(a) \/ NextOp(a)
+Internal(a) == NextOp(a)
 \* expected hook argument at the current point (-1 = not compared)
 Obs(a) == IF pc[a] = "sb.park.ret" THEN (IF res[a] = "Ok" THEN 0 ELSE 2) ELSE -1
 
